@@ -92,6 +92,7 @@ class Engine(object):
         self.repo = repo
         self.cfg = cfg
         self.all_obligations = []
+        self.executed = set()           # qualified names of every repository function whose body was executed (entry or inlined)
         self.solver_checks = 0
         self.solver_time = 0.0
         self.n_paths = 0
@@ -845,7 +846,14 @@ class Engine(object):
         yield st, e.value
 
     def ev_Name(self, e, st, fr):
-        yield st, self.lookup_name(st, fr, e.id)
+        try:
+            yield st, self.lookup_name(st, fr, e.id)
+        except Unsupported as ex:
+            if "unknown name" not in str(ex):
+                raise
+            # a name that is bound nowhere: Python raises UnboundLocalError (assigned later in this function) / NameError
+            local = fr.func is not None and any(isinstance(n, ast.Name) and n.id == e.id and isinstance(n.ctx, ast.Store) for n in ast.walk(fr.func.node))
+            yield st, Raise(self.new_exc(st, "UnboundLocalError" if local else "NameError", "name %r is not defined" % e.id))
 
     def ev_Tuple(self, e, st, fr):
         for st1, vs in self.ev_seq(e.elts, st, fr):
@@ -1446,6 +1454,7 @@ class Engine(object):
             yield r
 
     def exec_func(self, st, fr, func, args, kwargs, star, starkw, node, env=None, self_cls=None, depth=0):
+        self.executed.add(func.qualname)
         for st1, bound in self.bind_params(st, fr, func, args, kwargs, star, starkw, node):
             if isinstance(bound, Raise):
                 yield st1, bound
